@@ -18,7 +18,9 @@ import importlib
 import itertools
 import json
 import os
+import signal
 import sys
+import threading
 import time
 import traceback
 from concurrent.futures import ProcessPoolExecutor
@@ -34,6 +36,17 @@ class Violation(Exception):
         self.clause = str(clause)
         self.message = str(message)
         super().__init__(f"{clause}: {message}")
+
+
+class CaseTimeout(BaseException):
+    """A single case ran for more than CASE_TIMEOUT_S seconds (normal cases take milliseconds): the code under test hangs."""
+
+
+CASE_TIMEOUT_S = int(os.environ.get("VERIF_CASE_TIMEOUT_S", "90"))
+
+
+def _on_alarm(signum, frame):
+    raise CaseTimeout()
 
 
 class InvalidCase(Exception):
@@ -86,11 +99,19 @@ def execute(mod, case):
     """Returns (info, None) or (None, (sig, message)). Anything escaping run_case other than a
     FATAL error is a violation: on the unchanged tree run_case never raises (checked at many
     seeds), so an exception here is the code under test misbehaving."""
+    armed = False
     try:
+        if threading.current_thread() is threading.main_thread():
+            signal.signal(signal.SIGALRM, _on_alarm)
+            signal.alarm(CASE_TIMEOUT_S)
+            armed = True
         info = mod.run_case(case) or {}
         return info, None
     except FATAL:
         raise
+    except CaseTimeout:
+        return None, ("hang", f"the case did not finish within {CASE_TIMEOUT_S}s (normal cases take milliseconds): the code under "
+                              f"test does not terminate")
     except Violation as v:
         return None, (signature_of(v), v.message)
     except BaseException as e:  # noqa
@@ -100,6 +121,9 @@ def execute(mod, case):
             fr = tb[-1]
             msg += f"  [{os.path.basename(fr.filename)}:{fr.lineno} {fr.name}]"
         return None, (signature_of(e), msg)
+    finally:
+        if armed:
+            signal.alarm(0)
 
 
 class Stats:
@@ -201,7 +225,7 @@ def minimise(mod, case, sig, max_runs=3000, deadline=None):
                 cur = _get(case, path)
             except (KeyError, IndexError, TypeError):
                 continue
-            if kind == "list":
+            if kind == "list" and isinstance(cur, list):
                 n = len(cur)
                 chunk = max(n // 2, 1)
                 while chunk >= 1 and n > 0:
@@ -216,7 +240,7 @@ def minimise(mod, case, sig, max_runs=3000, deadline=None):
                     if chunk == 1:
                         break
                     chunk //= 2
-            elif kind == "int" and cur != 0:
+            elif kind == "int" and isinstance(cur, int) and not isinstance(cur, bool) and cur != 0:
                 for v in (0, cur // 2, cur - 1 if cur > 0 else cur + 1):
                     if v == cur or abs(v) > abs(cur):
                         continue
